@@ -19,10 +19,24 @@ def rich_pair(rnd):
     act = df.copy(deep=True)
     cols = list(df.columns)
     mut = rnd.choice(['copy', 'copy', 'cell', 'null', 'name', 'order', 'droprow', 'addrow', 'addcol', 'dropcol', 'type',
-                      'relabel', 'rowswap'])
+                      'relabel', 'rowswap', 'emptynull', 'emptynull', 'emptynull'])
     expect = 'fail'
     if mut == 'copy':
         expect = 'pass'
+    elif mut == 'emptynull':
+        # an empty string on one side and a null on the other, in a string column: a null equals only a null
+        scols = [c for c in cols if kinds[c] in ('object_str', 'many_cats')]
+        if not scols or len(df) == 0:
+            return None
+        c = rnd.choice(scols)
+        i = rnd.randrange(len(df))
+        df = df.copy(deep=True)
+        df.loc[df.index[i], c] = ''
+        act = df.copy(deep=True)
+        if rnd.random() < 0.5:
+            act.loc[act.index[i], c] = None
+        else:
+            df.loc[df.index[i], c] = None
     elif mut == 'relabel':
         # the same values in the same positions under other row labels (a filtered subset, a string index):
         # the row index is not one of the things compared
